@@ -152,9 +152,9 @@ Fixpoint mforest (f : list call) (d : N) (l : list seen5) (k : list seen5 -> boo
 Definition ok_emb (f : list call) (orecs : list seen5) : bool := mforest f 0 orecs (fun l => is_nil l).
 
 (* C05 stage 2: -F / -N / -D / -t with depth= and time= trigger actions against [sel2] *)
-Definition ok_sel2 (tgl : list (N * strig)) (sizes : list (N * N)) (fm hc : bool) (gd thr : N) (f : list call)
+Definition ok_sel2 (tgl : list (N * strig)) (sizes : list (N * N)) (fm hc lm : bool) (gd thr : N) (f : list call)
                    (orecs : list seen5) : bool :=
-  list_eqb seen_eqb orecs (map ideal (flat_map (sel2 (assoc notrig2 tgl) (assoc 0 sizes) hc (x02 fm gd thr) 0) f)).
+  list_eqb seen_eqb orecs (map ideal (flat_map (sel2 (assoc notrig2 tgl) (assoc 0 sizes) hc lm (x02 fm gd thr) 0) f)).
 
 (* append-only stream (C02_stream_append_only): the stream of a shorter run is a list prefix of the longer run's *)
 Fixpoint prefix5 (l1 l2 : list seen5) : bool :=
@@ -166,6 +166,15 @@ Fixpoint prefix5 (l1 l2 : list seen5) : bool :=
 
 (* global size filter -Z gz: correspondence from [init_z gz] and the specification with that filter in force *)
 Definition agree4z (p : N * case4) : bool := let '(z, (a, b, c0, d)) := p in agree_case_z z a b c0 d.
-Definition ok_sel2z (tgl : list (N * strig)) (sizes : list (N * N)) (fm hc : bool) (gd thr gz : N) (f : list call)
+Definition ok_sel2z (tgl : list (N * strig)) (sizes : list (N * N)) (fm hc lm : bool) (gd thr gz : N) (f : list call)
                     (orecs : list seen5) : bool :=
-  list_eqb seen_eqb orecs (map ideal (flat_map (sel2 (assoc notrig2 tgl) (assoc 0 sizes) hc (x02z fm gd thr gz) 0) f)).
+  list_eqb seen_eqb orecs (map ideal (flat_map (sel2 (assoc notrig2 tgl) (assoc 0 sizes) hc lm (x02z fm gd thr gz) 0) f)).
+
+(* the finish trigger: the implementation's records against the model run that stops at the first firing entry *)
+Definition ok_fin (c : cfg) (es : list ev) (orecs : list seen5) : bool :=
+  list_eqb seen_eqb (map seen (out (fst (fst (exec_f c es (init, [], false)))))) orecs.
+(* did the finish trigger fire at all in the model run (statistics) *)
+Definition fin_fired (c : cfg) (es : list ev) : bool := snd (exec_f c es (init, [], false)).
+
+(* record --disable: the run starts with tracing switched off *)
+Definition agree4off (p : case4) : bool := let '(a, b, c0, d) := p in agree_case_off a b c0 d.
